@@ -158,3 +158,20 @@ impl ReadDirS {
             r is Err ==> final(self).pos == old(self).pos,
     { unimplemented!() }
 }
+
+// ---- DirTourist::new's surroundings ----
+pub uninterp spec fn canon(p: PathS) -> PathS;                  // tokio::fs::canonicalize (may fail)
+#[verifier::external_body]
+pub fn vx_canonicalize(base: &PathS) -> (r: Result<PathS, IoError>) ensures r is Ok ==> r->Ok_0 == canon(*base) { unimplemented!() }
+impl FilterS {
+    // IgnoreFilter::new(origin, files) (unit ignorebuild): a filter holding the listed files, or an error
+    #[verifier::external_body]
+    pub fn vx_new(base: &PathS, files: &Vec<IgnoreFile>) -> (r: Result<FilterS, FilterErr>) ensures r is Ok ==> r->Ok_0.files@ == files@ { unimplemented!() }
+    // IgnoreFilter::add_globs of the seven VCS metadata directory names at the origin (the list is pinned by C14.structure.vcs_metadata_directory_*):
+    // glob lines are not IgnoreFile entries, the list of files is unchanged
+    #[verifier::external_body]
+    pub fn vx_add_vcs_globs(&mut self, base: &PathS) -> (r: Result<(), FilterErr>) ensures final(self).files@ == old(self).files@ { unimplemented!() }
+}
+// `paths.iter().cloned().collect()` into a HashSet<PathBuf>
+#[verifier::external_body]
+pub fn vx_path_set_of(xs: &Vec<PathS>) -> (r: PathSet) ensures r.s@ =~= xs@.to_set() { unimplemented!() }
